@@ -172,3 +172,33 @@ class deadline:
         signal.setitimer(signal.ITIMER_REAL, 0)
         signal.signal(signal.SIGALRM, self._old)
         return False
+
+
+class StateGuard:
+    """Module- and class-level mutable containers (dict/list/set attributes) of the code under test are process state that
+    survives from one explored path to the next; a path must start from the state a fresh process would have, so the
+    containers are snapshotted once and restored (in place) at the start of every path."""
+
+    def __init__(self, *owners):
+        import copy
+        self.owners = owners
+        self.snap = {}
+        for o in owners:
+            for k, v in list(vars(o).items()):
+                if k.startswith("__") or not isinstance(v, (dict, list, set)):
+                    continue
+                try:
+                    self.snap[(id(o), k)] = (o, copy.copy(v))
+                except Exception:
+                    pass
+
+    def restore(self):
+        for (_, k), (o, v) in self.snap.items():
+            cur = vars(o).get(k)
+            if type(cur) is type(v) and cur != v:
+                cur.clear()
+                cur.update(v) if isinstance(v, (dict, set)) else cur.extend(v)
+        for o in self.owners:                     # containers that did not exist at import time (created lazily)
+            for k, v in list(vars(o).items()):
+                if not k.startswith("__") and isinstance(v, (dict, list, set)) and (id(o), k) not in self.snap and v:
+                    v.clear()
